@@ -26,6 +26,8 @@ def burst_case(draw):
   lag = draw(st.lists(st.tuples(st.just(0), st.integers(50, 400)), max_size=3))
   sched_ = [list(x) for x in lag] + [list(x) for x in draw(schedule_st)]
   return {"pubs": pubs, "schedule": sched_, "publishers": draw(st.sampled_from([1, 1, 2])),
+          # publish through the fabric directly, or through a (decorated / undecorated) active object
+          "via": draw(st.sampled_from(["fabric", "fabric", "ao_decorated", "ao_undecorated"])),
           "before_start": draw(st.sampled_from([0, 0, 1, 2, 3, 4]))}
 
 
@@ -34,7 +36,8 @@ class C08(Prop):
   quick_examples = 500
   thorough_examples = 6000
   rule = ("Generated bursts of 2-9 publications (signal, priority from a small set so that equal "
-          "priorities are common; None = default) made by the body thread (optionally split over "
+          "priorities are common; None = default) made by the body thread - through the fabric or through a decorated or "
+          "undecorated active object's publish() - (optionally split over "
           "two publisher threads; the first 0-4 of them before the fabric is started, so that they "
           "are waiting in it when it starts) against the real ActiveFabric under the deterministic scheduler; "
           "schedules begin with long body segments so that several events wait in the fabric at "
@@ -68,15 +71,26 @@ class C08(Prop):
       for sig in SIGS:
         af.subscribe(recs["fifo"], Event(signal=signals[sig]), queue_type="fifo")
         af.subscribe(recs["lifo"], Event(signal=signals[sig]), queue_type="lifo")
+      publisher = af
+      if case.get("via", "fabric") != "fabric":
+        from .. import aocheck
+        rec_ = aocheck.Rec()
+        publisher = aocheck.make_ao_class(rec_)(name="vfpub")
+        publisher.start_at(aocheck.flat_chart(rec_, decorate=case["via"] == "ao_decorated"))
+        if case.get("before_start", 0):
+          af.stop()          # the object started the fabric: stop it so that publications can wait in it
+        else:
+          s.quiesce()
+
       def publish_range(ids):
         for i in ids:
           sig, prio = case["pubs"][i]
           p = {"prio": 1000 if prio is None else prio, "inv": s.steps, "ret": None}
           pubs[i] = p
           if prio is None:
-            af.publish(Event(signal=signals[sig], payload=i))
+            publisher.publish(Event(signal=signals[sig], payload=i))
           else:
-            af.publish(Event(signal=signals[sig], payload=i), priority=prio)
+            publisher.publish(Event(signal=signals[sig], payload=i), priority=prio)
           p["ret"] = s.steps
       n = len(case["pubs"])
       # some publications are made before the fabric is started: they wait in it
